@@ -158,8 +158,13 @@ def run(ck):
             keys = list(go_runs.keys())
             nxt = len(done) + 1 if len(done) < len(keys) else len(keys)
             if len(done) < len(keys):
-                ck.violation("defer-run-kills-process", "run f%d(%d) kills the llgo-compiled process (rc=%s)" % (keys[len(done)][0], keys[len(done)][1], a[0]),
-                             {"seed": seed, "run": keys[len(done)], "stderr_tail": a[2][-300:]})
+                kfn, kin = keys[len(done)]
+                ksh = shapes.get(kfn, {}).get("defers", [])
+                kpos = {line_of[d["line"]][1]: pos for pos, d in enumerate(ksh) if d["line"] in line_of}
+                kcls = classify(ksh, kpos, go_runs[keys[len(done)]]["regs"]) if ksh else None
+                ck.violation(kcls if kcls == "defer-lifo-broken-by-block-compile-order" else "defer-run-kills-process",
+                             "run f%d(%d) (generator seed %d) kills the llgo-compiled process (rc=%s)" % (kfn, kin, seed, a[0]),
+                             {"seed": seed, "run": keys[len(done)], "stderr_tail": a[2][-300:], "cls": kcls})
             rest = keys[nxt:]
             if not rest:
                 break
@@ -191,8 +196,14 @@ def run(ck):
             j_of = {v: k for k, v in pos_of.items()}
             for d in sh:
                 kinds_seen[d["kind"] + ("+node" if d["has_node"] else "")] += 1
-            if lr is None:
-                ck.violation("defer-run-missing", "run f%d(%d) produced no trace under llgo" % (fn, inp), {"seed": seed, "fn": fn, "in": inp})
+            if lr is None or not lr.get("ended", True):
+                # the process died in (or before) this run: classify by the defers the reference run executed.
+                # When the run violates the compile-order premise a foreign argument node is decoded with
+                # another statement's layout, which is memory-unsafe (garbage values or a crash).
+                cls0 = classify(sh, pos_of, gr["regs"])
+                key0 = cls0 if cls0 == "defer-lifo-broken-by-block-compile-order" else "defer-run-missing"
+                ck.violation(key0, "run f%d(%d) (generator seed %d) produced no complete trace under llgo; Go's deferred calls: %s" % (fn, inp, seed, gr["calls"][:8]),
+                             {"seed": seed, "fn": fn, "in": inp, "shape": sh, "go_regs": gr["regs"], "cls": cls0})
                 continue
             if len(gr["regs"]) >= 2:
                 interesting += 1
@@ -223,7 +234,9 @@ def run(ck):
                 ck.correspondence_broken("C04.machine", {"case": m})
             continue
         # llgo differs from Go: property violation; known only if the faithful model explains it
-        key = m["cls"] if (m["cls"] and i not in bad) else "defer-trace-differs"
+        # a premise violation explains the difference: exactly (model agrees) for the drain class; for the
+        # compile-order class the code decodes a foreign node (memory-unsafe), so payloads cannot be predicted
+        key = m["cls"] if (m["cls"] and (i not in bad or m["cls"] == "defer-lifo-broken-by-block-compile-order")) else "defer-trace-differs"
         nknown[key] += 1
         ck.violation(key, "f%d(%d) (generator seed %d): deferred calls under llgo %s, Go %s" % (m["fn"], m["in"], m["seed"], m["llgo_calls"][:8], m["go_calls"][:8]), m)
     ck.phase("model compared")
